@@ -284,6 +284,8 @@ inductive Slot
   -- fixed array); `subs`: the nested values of `c.F` one after the other (`cnt`, `size`: count field and window of the unmarshal loop)
   | ints (b : Blk) (w : Nat) (e : End) (f : String) (cnt : Option String)
   | subs (b : Blk) (f : String) (typ : String) (cnt : Option String) (size : Option Nat)
+  -- an optional integer: on the wire iff non-zero (`wc`: the word count under which Unmarshal reads it)
+  | opt (b : Blk) (w : Nat) (e : End) (f : String) (wc : Option Nat)
   deriving DecidableEq, Repr, Inhabited
 
 def layoutM : List MStmt → Option (List Slot)
@@ -314,7 +316,7 @@ def layoutU : List UStmt → Option (List Slot)
   | _ :: _ => none
 
 def Slot.blk : Slot → Blk
-  | .int b .. | .u8 b .. | .bytes b .. | .arr b .. | .sub b .. | .ints b .. | .subs b .. => b
+  | .int b .. | .u8 b .. | .bytes b .. | .arr b .. | .sub b .. | .ints b .. | .subs b .. | .opt b .. => b
 
 /-- slot of the marshal side vs slot of the unmarshal side (the unmarshal side knows lengths/windows) -/
 def Slot.agrees : Slot → Slot → Bool
@@ -325,6 +327,7 @@ def Slot.agrees : Slot → Slot → Bool
   | .sub b f t _, .sub b' f' t' _ => b == b' && f == f' && t == t'
   | .ints b w e f _, .ints b' w' e' f' _ => b == b' && w == w' && e == e' && f == f'
   | .subs b f t _ _, .subs b' f' t' _ _ => b == b' && f == f' && t == t'
+  | .opt b w e f _, .opt b' w' e' f' _ => b == b' && w == w' && e == e' && f == f'
   | _, _ => false
 
 def agreeAll : List Slot → List Slot → Bool
@@ -339,7 +342,7 @@ def restOnlyLast : List Slot → Bool
   | _ :: r => restOnlyLast r
 
 def Slot.field : Slot → String
-  | .int _ _ _ f | .u8 _ f | .bytes _ f _ | .arr _ f | .sub _ f _ _ | .ints _ _ _ f _ | .subs _ f _ _ _ => f
+  | .int _ _ _ f | .u8 _ f | .bytes _ f _ | .arr _ f | .sub _ f _ _ | .ints _ _ _ f _ | .subs _ f _ _ _ | .opt _ _ _ f _ => f
 
 /-- wire size of the nested types whose encoding has the same length for every value (what the
     literal guards and fixed windows in front of a nested read are compared with) -/
@@ -478,6 +481,7 @@ def slotBytes (C : Codecs) (env : Env) : Slot → Bytes
     match env.get f with
     | some (.ts vs) => vs.flatMap (fun v => match C.enc typ v with | .ok (bs, _) => bs | _ => [])
     | _ => []
+  | .opt _ w e f _ => match env.get f with | some (.n x) => if x = 0 then [] else intBytes w e x | _ => []
 
 /-- bytes of a sequence of slots: the encoding a layout prescribes for the field values -/
 def layoutBytes (C : Codecs) (env : Env) (l : List Slot) : Bytes := l.flatMap (slotBytes C env)
@@ -557,6 +561,7 @@ def consistentSlots (C : Codecs) (env : Env) : List Slot → Bool
     (match env.get f with
       | some (.ts vs) => vs.all (fun v => match C.enc typ v with | .ok _ => true | _ => false)
       | _ => false) && consistentSlots C env r
+  | .opt _ w _ f _ :: r => (match env.get f with | some (.n x) => x < 256 ^ w | _ => false) && consistentSlots C env r
 
 /-- a nested value is in its type's domain: it encodes, and its own encoding decodes back to it,
     consuming exactly what was written -/
